@@ -70,8 +70,7 @@ let run_report ic =
               (match ob.ob_stdout with SDNothing -> "empty" | _ -> "nonempty")
             else if f.f_json && exit = 0 then
               (match ob.ob_stdout with SDJson rs -> "json=" ^ canon (by_name rs) | _ -> "json=?")
-            else if f.f_json then
-              (match ob.ob_stdout with SDNothing -> "empty" | _ -> "nonempty")
+            else if f.f_json then "unconstrained"
             else
               (match ob.ob_stdout with
                | SDText ms ->
